@@ -209,8 +209,9 @@ def tmax_of(pv, G=None, prefix="a", group_input=False):
     if pv is None or not getattr(pv, "atoms", None) or G is None:
         return TMAX
     best = None
+    limit = engine.switch_limit(pv.atoms)
     for (cond, choice, xdesc, c, outc) in pv.atoms:
-        if cond.op != "fcmp" or c is None or not (0 < c <= Fraction(1, 100)):
+        if cond.op != "fcmp" or c is None or not (0 < c <= limit):
             continue
         if not ((outc - {"UN"}) <= {"LT", "EQ"}):
             continue
